@@ -123,7 +123,9 @@ func (list *List) Contains(addr netip.Addr) bool {
 		return false
 	}
 
-	addr = to6(addr)
+	// A zone is not part of the address bits. netip.Prefix.Contains never
+	// matches a zoned address, so drop it (link-local clients come with one).
+	addr = to6(addr).WithZone("")
 
 	i, j := 0, len(list.e)
 	for i < j {
